@@ -327,6 +327,69 @@ def check_conservation(env: Any, s: Any, a: Any, s2: Any, ts: Any) -> List[str]:
     return out
 
 
+# ------------------------------------------------------------------------------------------ injection
+def scenario_states(env: Any, state0: Any, agent: int = 0) -> Tuple[Any, List[Dict[str, Any]]]:
+    """State injection (optional, analogous to pac_man.corridor_states): short episodes from reset
+    hardly ever reach a loaded agent, a delivery or an illegal forward in a new geometry, so this
+    builds, from an UNBATCHED consistent state `state0` (e.g. a reset state), one state per
+    (cell, direction, load) of agent `agent`:
+        * load = None: the agent stands empty-handed on the cell (any cell not occupied by another agent);
+        * load = j   : the agent carries shelf j := request_queue[0] (a REQUESTED shelf, so stepping on a
+          goal cell delivers it); the shelf is moved under the agent (cells holding another shelf or
+          another agent are skipped).
+    Everything else (other agents, other shelves, queue, key, step_count) is unchanged; both grid
+    channels are rebuilt from the tables and `action_mask` is recomputed with jumanji's own
+    `utils.compute_action_mask`, so every root satisfies the C07 invariants.  Returns (states with a
+    leading batch axis, descriptions {"agent", "x", "y", "direction", "carrying_shelf"}).  Root
+    timesteps are stale: run with `injected_roots = True` and depth >= 2, or rebuild observations."""
+    import jax
+    import jax.numpy as jnp
+    from jumanji.environments.routing.robot_warehouse import utils as rw_utils
+
+    info = _info(env)
+    H, W, n = info["H"], info["W"], info["n"]
+    s0 = jax.tree_util.tree_map(lambda x: np.asarray(x), state0)
+    ax, ay, ad, ac = _agents(s0)
+    sx, sy, _ = _shelves(s0)
+    others = {(int(ax[k]), int(ay[k])) for k in range(n) if k != agent}
+    j_req = int(np.asarray(s0.request_queue).ravel()[0])
+    other_shelves = {(int(sx[j]), int(sy[j])) for j in range(len(sx)) if j != j_req}
+    rows: List[Any] = []
+    descs: List[Dict[str, Any]] = []
+    for x in range(H):
+        for y in range(W):
+            if (x, y) in others:
+                continue
+            for d in range(4):
+                for load in (None, j_req):
+                    if load is not None and (x, y) in other_shelves:
+                        continue
+                    px = np.asarray(s0.agents.position.x).copy()
+                    py = np.asarray(s0.agents.position.y).copy()
+                    pd = np.asarray(s0.agents.direction).copy()
+                    pc = np.asarray(s0.agents.is_carrying).copy()
+                    px[agent], py[agent], pd[agent], pc[agent] = x, y, d, (0 if load is None else 1)
+                    qx = np.asarray(s0.shelves.position.x).copy()
+                    qy = np.asarray(s0.shelves.position.y).copy()
+                    if load is not None:
+                        qx[load], qy[load] = x, y
+                    g = np.zeros_like(np.asarray(s0.grid))
+                    for k in range(n):
+                        g[1, int(px[k]), int(py[k])] = k + 1
+                    for j in range(len(qx)):
+                        g[0, int(qx[j]), int(qy[j])] = j + 1
+                    agents = type(s0.agents)(position=type(s0.agents.position)(x=px, y=py), direction=pd, is_carrying=pc)
+                    shelves = type(s0.shelves)(position=type(s0.shelves.position)(x=qx, y=qy),
+                                               is_requested=np.asarray(s0.shelves.is_requested))
+                    rows.append(s0.replace(grid=g, agents=agents, shelves=shelves))
+                    descs.append({"agent": agent, "x": x, "y": y, "direction": d, "carrying_shelf": load})
+    batched = jax.tree_util.tree_map(lambda *xs: np.stack(xs, axis=0), *rows)
+    mask = jax.jit(jax.vmap(rw_utils.compute_action_mask))(jnp.asarray(batched.grid),
+                                                           jax.tree_util.tree_map(jnp.asarray, batched.agents))
+    batched = batched.replace(action_mask=np.asarray(mask))
+    return batched, descs
+
+
 # ------------------------------------------------------------------------------------------ C12
 def _observe(info: Dict[str, Any], s: Any) -> np.ndarray:
     ax, ay, ad, ac = _agents(s)
